@@ -35,6 +35,7 @@ type CaseC struct {
 	CYield    int      `json:"cyield"`            // scheduler yields of the consumer between check-ins
 	Pivot     int      `json:"pivot,omitempty"`   // 0: the tasks are for the directly connected agent; 1-2: for a pivot agent at that depth below it
 	PivotID   uint32   `json:"pivotid,omitempty"` // id of the target pivot agent
+	Cfg       Cfg      `json:"cfg,omitempty"`     // configuration / environment of the fixture (cfg_test.go)
 }
 
 func genC(t *rapid.T) CaseC {
@@ -54,6 +55,7 @@ func genC(t *rapid.T) CaseC {
 	}
 	c.Pre = rapid.IntRange(0, 4).Draw(t, "pre")
 	c.CYield = rapid.IntRange(0, 6).Draw(t, "cyield")
+	c.Cfg = genCfg(t, 1+c.Pivot)
 	// SCALE (1 case in 40): one of the counts of the program is a threshold-adjacent large
 	// value, on top of the producers generated above
 	if agentfx.Weighted(t, "scale", 39, 1) == 1 {
@@ -122,7 +124,7 @@ func checkC(c CaseC) *core.Violation {
 	if c.Pivot >= 1 {
 		ids, parents = append(ids, c.PivotID), append(parents, len(ids)-1)
 	}
-	w, err := newForest(ids, parents)
+	w, err := newForestCfg(ids, parents, c.Cfg)
 	if err != nil {
 		return core.V("harness|fixture", "%v", err)
 	}
@@ -181,7 +183,7 @@ func checkC(c CaseC) *core.Violation {
 	var v *core.Violation
 	one := func() (nojob bool) {
 		before := int(active.Load())
-		code, tasks, ok := w.ep.CheckIn(w.ses[0], true, nil)
+		code, tasks, ok := w.CheckIn(w.ses[0], true, nil)
 		after := int(active.Load())
 		w.rec.Take()
 		lastC.checkins++
@@ -309,6 +311,7 @@ func classifyC(c CaseC) core.Class {
 			maxJobs = len(js)
 		}
 	}
+	cl.Labels = append(cl.Labels, c.Cfg.labels()...)
 	cl.Labels = append(cl.Labels, scaleLabel("jobs-of-one-producer", maxJobs)...)
 	cl.Labels = append(cl.Labels, scaleLabel("producers", len(c.Producers))...)
 	cl.Labels = append(cl.Labels, scaleLabel("pre-queued-jobs", c.Pre)...)
@@ -323,6 +326,7 @@ func classifyC(c CaseC) core.Class {
 		ov = 5
 	}
 	cl.Fingerprint = fmt.Sprintf("pd=%d|p=%d|ov=%d|relay=%v|op=%v|pre=%v|jobs=%s", c.Pivot, np, ov, relay, oper, c.Pre > 0, bucketC(total))
+	cl.Fingerprint += c.Cfg.fp()
 	if sj, sp, sq := scaleBucket(maxJobs), scaleBucket(len(c.Producers)), scaleBucket(c.Pre); sj+sp+sq != "" {
 		cl.Fingerprint += "|scale=" + sj + "/" + sp + "/" + sq
 	}
@@ -352,7 +356,7 @@ func TestC04c(t *testing.T) {
 	big()
 	core.Run(t, core.Spec[CaseC]{
 		Property: "C04", Sub: "c",
-		Rule: "concurrent programs (in 2 of 5 the tasks are for a pivot agent at depth 1-2 with an id from the whole 32-bit range, and are unwrapped from the directly connected agent's check-ins): 1-4 producer goroutines with 1-40 generated jobs each (operator path with request ids / relay path with request id 0 / mixed, 0-200 data bytes, 0-12 scheduler yields x a per-producer pace of 1/8/40/150 before each AddJobToQueue), 0-4 tasks queued beforehand, one consumer doing check-ins through the real endpoint until all producers finished and the queue drained to a no-job reply; run under the race detector. Oracle: every delivered task is a queued one, none twice, none missing, per-producer order kept; race reports with a Havoc frame are violations (driver). Non-trivial: at least 2 producers were running both before and after some check-in (observed); distinct = (#producers, observed overlap, paths used, pre-queued, job-count bucket). SCALE (1 case in 40, on top of the generated producers): one count of the program is drawn from the threshold-adjacent pool {63,64,65, 127..129, 255..257, 511..513, 999..1001, 1023..1025, 2047..2049, 4095..4097, (thorough: 8191..8193)}: the jobs of one extra producer (a burst, or pausing every 16th job; pool cut at 4097 in the quick tier because the run is under the race detector), the number of producers (1-3 jobs each; cut at 129 quick / 513 thorough), or the number of tasks queued before the goroutines start (cut at 4097 / 8193); same oracle over everything delivered; labels scale:<count>:<bucket> also for the observed jobs-in-one-reply and check-ins",
+		Rule: "concurrent programs (in 2 of 5 the tasks are for a pivot agent at depth 1-2 with an id from the whole 32-bit range, and are unwrapped from the directly connected agent's check-ins): 1-4 producer goroutines with 1-40 generated jobs each (operator path with request ids / relay path with request id 0 / mixed, 0-200 data bytes, 0-12 scheduler yields x a per-producer pace of 1/8/40/150 before each AddJobToQueue), 0-4 tasks queued beforehand, one consumer doing check-ins through the real endpoint until all producers finished and the queue drained to a no-job reply; run under the race detector. Oracle: every delivered task is a queued one, none twice, none missing, per-producer order kept; race reports with a Havoc frame are violations (driver). Non-trivial: at least 2 producers were running both before and after some check-in (observed); distinct = (#producers, observed overlap, paths used, pre-queued, job-count bucket). SCALE (1 case in 40, on top of the generated producers): one count of the program is drawn from the threshold-adjacent pool {63,64,65, 127..129, 255..257, 511..513, 999..1001, 1023..1025, 2047..2049, 4095..4097, (thorough: 8191..8193)}: the jobs of one extra producer (a burst, or pausing every 16th job; pool cut at 4097 in the quick tier because the run is under the race detector), the number of producers (1-3 jobs each; cut at 129 quick / 513 thorough), or the number of tasks queued before the goroutines start (cut at 4097 / 8193); same oracle over everything delivered; labels scale:<count>:<bucket> also for the observed jobs-in-one-reply and check-ins" + cfgRule,
 		Gen:  genC, Check: checkC, Classify: classifyC,
 		Assumptions: []string{"interleavings are sampled, not enumerated: the Go scheduler decides; the race detector turns unsynchronised access into a schedule-independent signal"},
 	})
